@@ -127,6 +127,13 @@ def isinstance_model(I, v, clsv):
 
 
 def length(I, v, node=None):
+    if I.codec is not None:
+        from .codec import SMapped, DictItems
+
+        if isinstance(v, (SMapped, DictItems)):
+            return SInt(I.codec.generic_of(v)[2])
+        if isinstance(v, LDict) or (isinstance(v, ZVal) and isinstance(v.ty, TMap)):
+            return SInt(I.codec.generic_of(I.codec.dict_items(v, "items"))[2])
     if isinstance(v, (STuple, SList)):
         return SInt(len(v.items))
     if isinstance(v, SStr):
@@ -276,6 +283,8 @@ def call_builtin(I, live, args, kwargs, node=None):
             return STuple(items)
         if isinstance(v, ZVal) and isinstance(v.ty, TSeq):
             return ZVal(TSeq(v.ty.elem, mutable=False), Cell(v.t))
+        if v.kind in ("llist", "mapped"):
+            return v  # tuple(list) has the same elements (identity of the container is not modelled)
         raise Unsupported("tuple() of symbolic iterable")
     if live is list:
         if not args:
@@ -288,6 +297,8 @@ def call_builtin(I, live, args, kwargs, node=None):
             return ZVal(TSeq(v.ty.elem, mutable=True), Cell(v.t))
         if isinstance(v, ZVal) and isinstance(v.ty, TSet):
             return set_to_seq(I, v, "list")
+        if v.kind in ("llist", "mapped"):
+            return v
         raise Unsupported("list() of symbolic iterable")
     if live is set or live is frozenset:
         if not args:
@@ -365,6 +376,26 @@ def call_builtin(I, live, args, kwargs, node=None):
     if live is any or live is all:
         v = args[0]
         items = I.try_iter_concrete(v)
+        if items is None and I.codec is not None:
+            from .codec import SMapped
+
+            if isinstance(v, SMapped):
+                # any(p(e) for e in xs) over a collection of unknown length: an unknown boolean A
+                # related to the canonical generic element:  p(generic) => A   (all: A => p(generic))
+                k, elem, n = I.codec.generic_of(v)
+                p = I.truth(elem)
+                # the answer is a function of (collection, predicate): the same generator expression
+                # over the same collection gives the same answer
+                gkey = ("any_all", id(v.src), str(simp(p)), live is any)
+                if gkey in c.ghost:
+                    return SBool(c.ghost[gkey])
+                A = c.fresh("any_all", BoolS)
+                c.ghost[gkey] = A
+                if live is any:
+                    c.assume(z3.And(z3.Implies(z3.And(n > 0, p), A), z3.Implies(n == 0, z3.Not(A))))
+                else:
+                    c.assume(z3.And(z3.Implies(z3.And(n > 0, A), p), z3.Implies(n == 0, A)))
+                return SBool(A)
         if items is None:
             raise Unsupported("any/all over symbolic iterable")
         for x in items:
@@ -458,6 +489,8 @@ def call_builtin(I, live, args, kwargs, node=None):
         t = buf.t
         val = t[0] * (256 ** 3) + t[1] * (256 ** 2) + t[2] * 256 + t[3]
         return STuple([SInt(val)])
+    if qn == "typing:cast":
+        return args[1]
     if live is builtins.hash:
         raise Unsupported("hash()")
     raise Unsupported(f"external function {qn}")
@@ -474,6 +507,10 @@ def set_to_seq(I, v, why):
 
 def sorted_model(I, v, kwargs, node):
     c = I.ctx
+    if I.codec is not None and (isinstance(v, LDict) or (isinstance(v, ZVal) and isinstance(v.ty, TMap))) and not kwargs:
+        from .codec import SortedKeys
+
+        return SortedKeys(v)
     items = I.try_iter_concrete(v)
     if items is not None:
         if "key" in kwargs or "reverse" in kwargs:
@@ -523,6 +560,10 @@ def sorted_model(I, v, kwargs, node):
 def call_method_model(I, recv, name, args, kwargs, node=None):
     c = I.ctx
     v = I.unopt(recv)
+    if v.kind == "mapped" and name == "count":
+        n = c.fresh("count", IntS)
+        c.assume(z3.And(n >= 0, n <= I.codec.generic_of(v)[2]))
+        return SInt(n)
     if isinstance(v, ZVal) or isinstance(v, SStr):
         args = [I.unopt(a) for a in args]
     if isinstance(v, SStr):
@@ -536,6 +577,10 @@ def call_method_model(I, recv, name, args, kwargs, node=None):
     if isinstance(v, ZVal):
         return zval_method(I, v, name, args, kwargs, node)
     if isinstance(v, LList):
+        if name == "count":
+            n = c.fresh("count", IntS)
+            c.assume(z3.And(n >= 0, n <= I.llist_len(v)))
+            return SInt(n)
         if name == "append":
             if concrete_int(v.length) is None:
                 # append after a lazy prefix: keep the appended tail separately
